@@ -1,5 +1,5 @@
 (* C12/Properties.v -- pinned statements of property C12 (JSON-LD serialisation round trip). *)
-From Sophia.C12 Require Import Model Proofs Calls CallsProofs Back BackProofs RoundTripFacts RoundTripValues RoundTripDoc.
+From Sophia.C12 Require Import Model Proofs Calls CallsProofs Back BackProofs RoundTripFacts RoundTripValues RoundTripDoc Wide WideProofs.
 
 (* ---------- (1) the filter ---------- *)
 Check (is_jsonld_spec : forall info q, is_jsonld info q = true <-> representable info q).
@@ -303,3 +303,55 @@ Print Assumptions roundtrip_isomorphic.
 Print Assumptions roundtrip_full.
 Print Assumptions wf_info_T2.
 Print Assumptions d_big_compacted.
+
+(* ---------- (9) the directed streams: identifiers under the options, parser entry points, sizes (Wide.v) ---------- *)
+(* identifiers: what is written for an IRI is read back as that IRI whatever base / compactToRelative are; a string of keyword form is not *)
+Check (scheme_not_keyword : forall s, has_scheme s = true -> keyword_form s = false).
+Check (id_roundtrip : forall base ctr i, has_scheme i = true -> expand_id (id_written base ctr i) = EIri i).
+Check (ids_ok_sound : forall base ctr input observed, ids_ok base ctr input observed = true ->
+  forall s, In s observed -> In s input /\ expand_id s = EIri s).
+Check (relative_writer_refuted :
+  has_scheme ex_at_type = true /\ expand_id (id_written_relative ex_dir ex_at_type) = EIgnored
+  /\ expand_id (id_written (Some (ex_dir ++ [100])) true ex_at_type) = EIri ex_at_type).
+(* entry points: every reader gives the parser the same text, and the bytes of any text are accepted whole *)
+Check (chunks_concat : forall p l, read_to_end (chunks_of p l) = l).
+Check (parse_entry_spec : forall p l, parse_entry (chunks_of p l) = if utf8_valid l then Some l else None).
+Check (entry_independent : forall p q l, parse_entry (chunks_of p l) = parse_entry (chunks_of q l)).
+Check (chunkwise_refuted : exists p l, parse_entry (chunks_of p l) = Some l /\ parse_chunkwise (chunks_of p l) = None).
+Check (encode_valid : forall s, forallb scalar s = true -> utf8_valid (utf8_encode s) = true).
+Check (entry_accepts_text : forall p s, forallb scalar s = true ->
+  parse_entry (chunks_of p (utf8_encode s)) = Some (utf8_encode s)).
+Check (entry_ok_spec : forall doc obs, entry_ok doc obs = true -> forall p a, In (p, a) obs -> a = utf8_valid doc).
+(* sizes: values that differ by text, language tag, datatype or kind are all kept, whatever their number *)
+Check (push_all_distinct : forall xs, distinctb xs = true -> push_all xs = xs).
+Check (push_all_complete : forall xs x, In x xs -> existsb (rdfobject_eqb x) (push_all xs) = true).
+Check (text_dedup_refuted : exists xs, distinctb xs = true /\ push_all xs = xs /\ fold_left push_if_new_text xs [] <> xs).
+Check (values_ok_distinct : forall xs, distinctb xs = true -> values_ok xs (N.of_nat (length xs)) = true).
+(* non-vacuity: 40 values then the lookalikes "chat"@en, "chat"@fr, "chat", <chat>: 44 values; the euro sign is 3 well-formed bytes *)
+Example lookalikes_after_40 :
+  let chat := [99; 104; 97; 116] in let xs_string := [120; 115] in
+  let xs := map (fun i => TypedLiteral [118; N.of_nat i] xs_string) (seq 0 40)
+            ++ [LangString chat [101; 110]; LangString chat [102; 114]; TypedLiteral chat xs_string; Node 0 chat] in
+  distinctb xs = true /\ values_ok xs 44 = true /\ length (fold_left push_if_new_text xs []) = 41%nat.
+Proof. vm_compute. repeat split. Qed.
+Example euro_bytes : utf8_encode [8364] = [226; 130; 172] /\ scalar 8364 = true
+  /\ entry_ok (expand_segs [([226; 130; 172], 3000)]) [(Every 8192, true); (Every 1, true); (At [4097], true)] = true
+  /\ entry_ok [226; 130] [(At [], false); (Every 1, false)] = true.
+Proof. vm_compute. repeat split. Qed.
+Print Assumptions scheme_not_keyword.
+Print Assumptions id_roundtrip.
+Print Assumptions ids_ok_sound.
+Print Assumptions relative_writer_refuted.
+Print Assumptions chunks_concat.
+Print Assumptions parse_entry_spec.
+Print Assumptions entry_independent.
+Print Assumptions chunkwise_refuted.
+Print Assumptions encode_valid.
+Print Assumptions entry_accepts_text.
+Print Assumptions entry_ok_spec.
+Print Assumptions push_all_distinct.
+Print Assumptions push_all_complete.
+Print Assumptions text_dedup_refuted.
+Print Assumptions values_ok_distinct.
+Print Assumptions lookalikes_after_40.
+Print Assumptions euro_bytes.
